@@ -1,36 +1,44 @@
-import Sucds.Proofs.Rank9Hints
-import Sucds.Model.Rank9Sel
-/-! # C01 — Rank9Sel answers like the plain bit sequence (partial: everything except `select0`)
+import Sucds.Proofs.Rank9Full
+/-! # C01 — Rank9Sel answers access/rank/select exactly like the plain bit sequence
 
-Proved here for every build configuration, every valid bit vector (any length, any alignment) and
-every argument: `rank1`, `rank0` on the index built by `build_rank`; `select1` without hints and with
-the hint table built by `build_select1`; `num_ones`. Missing for the full statement: `select0`
-(modelled and exercised by the correspondence; proof in progress). -/
+For every bit sequence `bs` (every length, density and alignment — no bound), every choice of select hints
+`(h1, h0)`, every build configuration `c` and **every** argument (any natural number, in particular all of
+`usize`): the model of `Rank9Sel` built from `bs` (`BitVector::from_bits`, `build_rank`, optional
+`build_select1`/`build_select0`) never panics and returns `access(i) = bs[i]`, `rank1(i)` = ones in `bs[0..i)`,
+`rank0(i) = i − rank1(i)`, `select1(k)`/`select0(k)` = position of the k-th one/zero, with `None` exactly out
+of range, and the true counts. Since the right-hand sides mention neither `(h1, h0)` nor `c`, hints never
+change an answer and the answers are configuration independent. -/
 namespace Sucds.C01
-open Sucds Sucds.Spec Sucds.R9Index
+open Sucds Sucds.Spec
 
-theorem holds_partial_rank1 (c : Cfg) (bv : BV) (h : bv.Inv) (pos : Nat) :
-    (buildRank c bv).rank1 c bv pos = .ok (if pos ≤ bv.len then some (cnt bv.bitAt pos) else none) :=
-  rank1_ok c bv h pos
+/-- the bit at position `j` of the list, `false` beyond its end -/
+abbrev bitOf (bs : List Bool) : Nat → Bool := fun j => bs.getD j false
 
-theorem holds_partial_rank0 (c : Cfg) (bv : BV) (h : bv.Inv) (pos : Nat) :
-    (buildRank c bv).rank0 c bv pos = .ok (if pos ≤ bv.len then some (cnt (fun i => !bv.bitAt i) pos) else none) :=
-  rank0_ok c bv h pos
+def Statement : Prop :=
+  ∀ (c : Cfg) (bs : List Bool) (h1 h0 : Bool),
+    ∃ x, R9.build c (BV.fromBits bs) h1 h0 = .ok x ∧
+      (∀ i, x.access i = .ok bs[i]?) ∧
+      (∀ i, x.rank1 c i = .ok (if i ≤ bs.length then some (cnt (bitOf bs) i) else none)) ∧
+      (∀ i, x.rank0 c i = .ok (if i ≤ bs.length then some (i - cnt (bitOf bs) i) else none)) ∧
+      (∀ k, x.select1 c k = .ok (sel (bitOf bs) bs.length k)) ∧
+      (∀ k, x.select0 c k = .ok (sel (fun j => !bitOf bs j) bs.length k)) ∧
+      x.numBits = bs.length ∧ x.numOnes = .ok (cnt (bitOf bs) bs.length) ∧
+      x.numZeros c = .ok (bs.length - cnt (bitOf bs) bs.length)
 
-theorem holds_partial_select1_nohints (c : Cfg) (bv : BV) (h : bv.Inv) (k : Nat) :
-    select1 c (buildRank c bv) bv k = .ok (sel bv.bitAt bv.len k) :=
-  select1_nohints_ok c bv h k
+theorem holds : Statement := fun c bs h1 h0 => R9.build_answers c bs h1 h0
 
-theorem holds_partial_select1_hints (c : Cfg) (bv : BV) (h : bv.Inv) (k : Nat) :
-    ∃ x, buildSelect1 (buildRank c bv) = .ok x ∧ select1 c x bv k = .ok (sel bv.bitAt bv.len k) :=
-  select1_hints_ok c bv h k
+/-- hints never change any answer (and neither does the build configuration) -/
+theorem hints_irrelevant (c c' : Cfg) (bs : List Bool) (h1 h0 h1' h0' : Bool) :
+    ∃ x y, R9.build c (BV.fromBits bs) h1 h0 = .ok x ∧ R9.build c' (BV.fromBits bs) h1' h0' = .ok y ∧
+      (∀ a, x.access a = y.access a ∧ x.rank1 c a = y.rank1 c' a ∧ x.rank0 c a = y.rank0 c' a ∧
+            x.select1 c a = y.select1 c' a ∧ x.select0 c a = y.select0 c' a) := by
+  obtain ⟨x, hx, a1, a2, a3, a4, a5, _⟩ := holds c bs h1 h0
+  obtain ⟨y, hy, b1, b2, b3, b4, b5, _⟩ := holds c' bs h1' h0'
+  exact ⟨x, y, hx, hy, fun a => ⟨by rw [a1, b1], by rw [a2, b2], by rw [a3, b3], by rw [a4, b4], by rw [a5, b5]⟩⟩
 
-/-- hints never change a `select1` answer -/
-theorem hints_irrelevant_select1 (c : Cfg) (bv : BV) (h : bv.Inv) (k : Nat) :
-    ∃ x, buildSelect1 (buildRank c bv) = .ok x ∧ select1 c x bv k = select1 c (buildRank c bv) bv k := by
-  obtain ⟨x, e, hx⟩ := select1_hints_ok c bv h k
-  exact ⟨x, e, by rw [hx, select1_nohints_ok c bv h k]⟩
-
--- the hypothesis `bv.Inv` is met by every vector the constructors produce
-example (bs : List Bool) : (BV.fromBits bs).Inv := (BV.fromBits_spec bs).1
+/-- `sel` means "the k-th position": `none` iff at most `k` positions qualify -/
+theorem sel_none_iff (P : Nat → Bool) (n k : Nat) : sel P n k = none ↔ cnt P n ≤ k :=
+  ⟨Sucds.sel_none_le P n k, sel_eq_none P n k⟩
+theorem sel_some_iff (P : Nat → Bool) (n k p : Nat) : sel P n k = some p ↔ IsKth P n k p :=
+  ⟨Sucds.sel_isKth P n k p, sel_eq_some P n k p⟩
 end Sucds.C01
